@@ -66,6 +66,27 @@ CHECKS = {
             "from the real stepper and validated by TLC against the monitor (substituted set while held, outputs released and "
             "modifiers back when the combination ends).",
             "5 C13", TECH, BOUNDS + "; tables of <= 3 overrides over 2 keys and 3 of the 8 modifiers in the exhaustive part"),
+    "C14": ("model_checking",
+            "TLC checks L1 (Kanata.tla + KeyRepeat.tla: the KeyOutputs collection over the action algebra and handle_repeat driven by "
+            "the parser's own dumped table) against the monitor P_C14 (at most one repeat; only for a key down at the OS; if the held "
+            "key is unambiguously what put an output key down on a certainly-active layer a repeat is emitted for one of its outputs, "
+            "never a chord's modifier instead of its last-listed key) for every schedule within the instance bounds with an OS repeat "
+            "of any held key injected in every state, per key-producing action form nested to depth 2 on 1-3 layers; the parser's table "
+            "is compared with the specified collection; edge-cover replay binds L1 to the code; directed and random histories, also on "
+            "sequence-mode, chords-v2 and override configurations outside L1, are recorded from the code and validated by TLC against P_C14.",
+            "5 C14", TECH, BOUNDS + "; sequence modes and chords v2 only through recorded traces; completeness claimed only where attribution is unambiguous"),
+    "C18": ("model_checking",
+            "TLC checks L1 (Kanata.tla FakeKeyOp / CustomPress fakekey, fakekey_idle, fakekey_hold / IdleFire / HeldVkeys; Layout.tla "
+            "SeqCustomPending/Active) against the virtual-key reference P_C18 (want[v] driven by press/release/tap/toggle in issue order "
+            "whatever the trigger; one event per tick; hold-for-duration released exactly D ticks after the most recent activation, "
+            "re-arming only extends; on-idle fires once, on the first tick with D idle tick-ends behind it) for every interleaving of "
+            "key events, direct handle_fakekey_action calls (the TCP path after name lookup) and ticks within the instance bounds; every "
+            "model transition is replayed on the real code; model witnesses, random operation histories, trigger-equivalence histories "
+            "(key / macro item / direct) and defseq-termination histories are recorded from the code and validated by TLC against P_C18.",
+            "5 C18", TECH,
+            BOUNDS + "; 1-3 virtual keys (key / layer-while-held / macro), D in {2,3}; is_idle() taken as the idle signal; sequence trigger "
+            "and 8-key trigger-equivalence by recorded traces only; TCP socket not exercised; toggles issued while the key's state is in "
+            "flight are a recorded finding and pruned from the quick instances"),
     "C16": ("translation_validation",
             "spec/CfgLang.tla defines s-expression trees, Norm (documented semantics of include, platform, templates, variables, "
             "aliases, deflayermap) and the abstraction steps as actions; TLC explores every step at every site and compositions of "
